@@ -416,7 +416,15 @@ where
                 .map(|x| x.unwrap().into_boxed_slice())
                 .collect(),
             prod_precs: prod_precs.into_iter().map(Option::unwrap).collect(),
-            prod_spans: ast.prods.iter().map(|prod| prod.prod_span).collect(),
+            // The productions this function has added after the AST's own have no text of their
+            // own: like the start rule's name they get a zero-length span at the start.
+            prod_spans: ast
+                .prods
+                .iter()
+                .map(|prod| prod.prod_span)
+                .chain(std::iter::repeat(Span::new(0, 0)))
+                .take(ast.prods.len() + extra_prods)
+                .collect(),
             implicit_rule: implicit_rule.map(|x| rule_map[&x]),
             actions: actions.into_boxed_slice(),
             action_spans: action_spans.into_boxed_slice(),
